@@ -1710,7 +1710,7 @@ def segfit(ck):
     for ci in range(N):
         K = int(rng.integers(1, 4))
         nch = int(rng.integers(1, 4)) if ci % 3 else 1
-        sp = [(2, 2, 2), (3, 2, 1), (1, 1, 2), (2, 3, 2)][ci % 4]
+        sp = [(2, 2, 2), (3, 2, 2), (2, 2, 3), (2, 3, 2)][ci % 4]
         shape = sp if nch == 1 else sp + (nch,)
         data = rng.integers(-24, 25, shape).astype(float) / [1.0, 4.0][ci % 2]
         mask = None
